@@ -56,7 +56,8 @@ def _rtok_owner(c: ast.Call, loopvars) -> Optional[str]:
 
 def check_owner_consistency(ctx, rule, fi, want_slots: bool):
     """Shared by C33 (R33.1) and C25 (R25.1/2): R_to_k calls in `fi` (private helpers inlined)."""
-    fi = unroll_finite_loops(ctx.index, inline_private_helpers(ctx.index, fi))
+    from .spin import propagate_channel_aliases
+    fi = propagate_channel_aliases(unroll_finite_loops(ctx.index, inline_private_helpers(ctx.index, fi)))
     cfg, du, pm = fctx(fi)
     loopvars = loop_owner_vars(fi.node)
     n = 0
@@ -201,7 +202,31 @@ def _half_offsets(fi, varnames=("ix", "iy", "iz")) -> Optional[List[Fraction]]:
                     if "dK_fullBZ" not in norm(bb):
                         _WRONG_STEP.append((fi, s, norm1(bb, 70)))
                     return [Fraction(0) + shift, Fraction(1) + shift]
+                # vectorised: (corners − c)·dK with `corners` the table of all (ix, iy, iz) ∈ {0,1}³ in C order (rows = corners)
+                if isinstance(a, ast.BinOp) and isinstance(a.op, (ast.Sub, ast.Add)) and isinstance(a.left, ast.Name):
+                    tab = norm(du.resolve_local(a.left, cfg.node(s))).replace(" ", "")
+                    if tab in _CORNER_TABLES:
+                        try:
+                            shift = to_rat(a.right, lambda x: None).as_poly().as_const()
+                        except AnalysisError:
+                            continue
+                        if isinstance(a.op, ast.Sub):
+                            shift = -shift
+                        bb = du.resolve_local(b, cfg.node(s))
+                        if "dK_fullBZ" not in norm(bb):
+                            _WRONG_STEP.append((fi, s, norm1(bb, 70)))
+                        return [Fraction(0) + shift, Fraction(1) + shift]
     return None
+
+
+# all corners (ix, iy, iz) of the unit cube, one per row, last index fastest (the order of a C-order reshape to (2, 2, 2))
+_CORNER_TABLES = {
+    "np.indices((2,2,2)).reshape(3,8).T", "np.indices((2,2,2)).reshape(3,-1).T", "np.indices((2,2,2)).reshape((3,8)).T",
+    "np.array(list(np.ndindex(2,2,2)))", "np.array(list(np.ndindex((2,2,2))))",
+    "np.array(list(itertools.product((0,1),repeat=3)))", "np.array(list(product((0,1),repeat=3)))",
+    "np.array(list(itertools.product([0,1],repeat=3)))", "np.array(list(product([0,1],repeat=3)))",
+    "np.array(list(itertools.product(range(2),repeat=3)))", "np.array(list(product(range(2),repeat=3)))",
+}
 
 
 def run(ctx) -> None:
@@ -259,7 +284,8 @@ def run(ctx) -> None:
                          f"`self.Kpoint.dK_fullBZ`: for a K-point created by adaptive refinement (smaller cell) the corner energies are taken at the "
                          f"corners of another cell than the one the fast path and the tetrahedron weights use", stmt="corner step")
         if ho is None:
-            raise AnalysisError(f"{f.short}: corner shift `(np.array([ix, iy, iz]) - 1/2) * dK_fullBZ` not recognised")
+            r3.expect(False, "", f, f.node, f"{f.short}: corner shift `(np.array([ix, iy, iz]) - 1/2) * dK_fullBZ` (or its vectorised form over the table of all corners) not recognised")
+            continue
         r3.instance(f"{f.short}: offsets {[str(x) for x in ho]}")
         r3.check(ho == offs, f"{f.name} corners (i−1/2)·dK equal the phase-factor corners", f, f.node,
                  f"corner offsets differ: phase factors give {[str(x) for x in offs]}·dK for index 0/1, "
@@ -291,10 +317,57 @@ def run(ctx) -> None:
                         subs_ = [x for x in ast.walk(b_) if isinstance(x, ast.Subscript)]
                         if len(subs_) == 3 and all(isinstance(x.slice, ast.Tuple) and len(x.slice.elts) == 3 for x in subs_):
                             prods.append(_P(b_, getattr(b_, "lineno", 0)))
+        def phase_subs(e_):
+            return [x for x in ast.walk(e_) if isinstance(x, ast.Subscript) and isinstance(x.slice, ast.Tuple) and len(x.slice.elts) == 3
+                    and norm(x.slice.elts[1]) == ":" and isinstance(x.slice.elts[2], ast.Constant) and isinstance(x.slice.elts[2].value, int)]
         if not prods:
+            # the product accumulated through named partial products (e.g. one factor per loop level): resolve the operands
+            S_ = Sem(idx, fi_)
+            S_.keep_names = {n_.id for l_ in ast.walk(fi_.node) if isinstance(l_, ast.For) for n_ in ast.walk(l_.target) if isinstance(n_, ast.Name)}
+            pm_ = S_.pm
+            seen_ = set()
+            for b_ in ast.walk(fi_.node):
+                if isinstance(b_, ast.BinOp) and isinstance(b_.op, ast.Mult) and not (isinstance(pm_.get(b_), ast.BinOp) and isinstance(pm_.get(b_).op, ast.Mult)):
+                    try:
+                        r_ = S_.resolve(b_, S_.du.node_of_expr(b_))
+                    except AnalysisError:
+                        continue
+                    ps_ = phase_subs(r_)
+                    key_ = tuple(sorted(norm(x) for x in ps_))
+                    if len(ps_) == 3 and key_ not in seen_:
+                        seen_.add(key_)
+                        prods.append(_P(r_, getattr(b_, "lineno", 0)))
+        bprods = []
+        if not prods:
+            # all eight corners at once by broadcasting: e[:, None, None, :, 0] * e[None, :, None, :, 1] * e[None, None, :, :, 2]
+            def bsub(x):
+                """(corner-axis position, Cartesian axis) of a broadcast factor, or None"""
+                if not (isinstance(x, ast.Subscript) and isinstance(x.slice, ast.Tuple) and len(x.slice.elts) == 5):
+                    return None
+                e5 = x.slice.elts
+                full = [k_ for k_ in range(3) if isinstance(e5[k_], ast.Slice) and e5[k_].lower is None and e5[k_].upper is None and e5[k_].step is None]
+                none = [k_ for k_ in range(3) if (isinstance(e5[k_], ast.Constant) and e5[k_].value is None) or norm(e5[k_]) == "np.newaxis"]
+                if len(full) == 1 and len(none) == 2 and norm(e5[3]) == ":" and isinstance(e5[4], ast.Constant) and isinstance(e5[4].value, int):
+                    return full[0], e5[4].value
+                return None
+            for b_ in ast.walk(fi_.node):
+                if isinstance(b_, ast.BinOp) and isinstance(b_.op, ast.Mult):
+                    fs_ = [x for x in ast.walk(b_) if bsub(x) is not None]
+                    if len(fs_) == 3 and not any(isinstance(p_, ast.BinOp) and isinstance(p_.op, ast.Mult) and len([x for x in ast.walk(p_) if bsub(x) is not None]) == 3
+                                                 and p_ is not b_ and any(y is b_ for y in ast.walk(p_)) for p_ in ast.walk(fi_.node)):
+                        bprods.append((b_, fs_))
+            for b_, fs_ in bprods:
+                r3.instance(f"{f.short}: {norm1(b_, 90)}")
+                pairs_ = sorted(bsub(x) for x in fs_)
+                bases_ = {norm(x.value) for x in fs_}
+                r3.check(pairs_ == [(0, 0), (1, 1), (2, 2)] and len(bases_) == 1,
+                         "broadcast phase product: corner axis k (of ix, iy, iz) carries the factor of Cartesian axis k of one phase table", f, b_,
+                         f"broadcast phase product pairs (corner axis, Cartesian axis) = {pairs_} of tables {sorted(bases_)}: corner (ix,iy,iz) gets the "
+                         f"phase of a different corner")
+        if not prods and not bprods:
             r3.expect(False, "", f, f.node, f"{f.short}: phase product `e[ix,:,0]*e[iy,:,1]*e[iz,:,2]` not found")
         for s in prods:
-            subs = [x for x in ast.walk(s.value) if isinstance(x, ast.Subscript)]
+            subs = phase_subs(s.value) if len(phase_subs(s.value)) == 3 else [x for x in ast.walk(s.value) if isinstance(x, ast.Subscript)]
             pairs = sorted((norm(x.slice.elts[0]), norm(x.slice.elts[2])) for x in subs)
             bases = {norm(x.value) for x in subs}
             r3.instance(f"{f.short}: {norm1(s.value, 90)}")
